@@ -376,18 +376,19 @@ def run_many(pkg_dir: Path, target_dir: Path, specs: list[HarnessSpec], log_dir:
     results: list[HarnessResult] = []
     if not specs:
         return results
-    # The first run builds the dependency graph once; the others then only rebuild the leaf crate.
-    first = run_kani(pkg_dir, target_dir, specs[0], log_dir, extra_args)
-    _report(first)
-    results.append(first)
-    if first.status == "inconclusive" and ("build failed" in first.reason or "internal error" in first.reason):
-        # no point in repeating a broken build N times
-        for s in specs[1:]:
-            results.append(HarnessResult(spec=s, status="inconclusive", reason="not run: " + first.reason,
-                                         log_path=first.log_path))
+    # Build once up front (dependency graph + the encoding), so that every harness can start at once.
+    b = subprocess.run(["cargo", "kani", "-Z", "stubbing", "--only-codegen", "--target-dir", str(target_dir)] ,
+                       cwd=pkg_dir, env=env_offline(), stdout=subprocess.PIPE, stderr=subprocess.STDOUT, text=True)
+    log_dir.mkdir(parents=True, exist_ok=True)
+    (log_dir / "_build.log").write_text(b.stdout)
+    if b.returncode != 0:
+        reason = "kani-compiler internal error" if "internal compiler error" in b.stdout else "the harness build failed (see log)"
+        log("  build of the encoding failed:\n" + "\n".join(b.stdout.splitlines()[-25:]))
+        for s in specs:
+            results.append(HarnessResult(spec=s, status="inconclusive", reason=reason, log_path=str(log_dir / "_build.log")))
         return results
     with ThreadPoolExecutor(max_workers=max(1, jobs)) as ex:
-        futs = [ex.submit(run_kani, pkg_dir, target_dir, s, log_dir, extra_args) for s in specs[1:]]
+        futs = [ex.submit(run_kani, pkg_dir, target_dir, s, log_dir, extra_args) for s in specs]
         for f in futs:
             r = f.result()
             _report(r)
